@@ -68,6 +68,9 @@ Tuples ==
   { [side |-> s, proto |-> p, cipher |-> c, mode |-> m, key |-> "password", link |-> l] :
       s \in Sides, p \in {"vmess", "trojan"} \cup BadProtocols, c \in VMessCiphers \cup BadCiphers \cup ShadowsocksOnly,
       m \in {"absent", "tcp", "udp", "tcp_and_udp"}, l \in Links }
+  \cup  \* VMess: the credential is a UUID; a user id that is none
+  { [side |-> s, proto |-> "vmess", cipher |-> "aes-128-gcm", mode |-> m, key |-> "notuuid", link |-> l] :
+      s \in Sides, m \in {"absent", "tcp_and_udp"}, l \in {"tcp", "wss"} }
 
 Relevant(t) ==
   /\ (t.proto = "shadowsocks" /\ t.cipher \in Aead2022) => t.key \in KeyForms2022
@@ -99,7 +102,7 @@ Documented(t) ==
                  \* Trojan peer has none to select: there the field selects nothing and any documented name is accepted.)
                  /\ ((t.proto = "vmess" /\ t.side = "client") => t.cipher \in VMessCiphers)
                  /\ (t.side = "server" => t.mode \in ServerModes) /\ (t.side = "client" => t.mode \in ClientModes)
-      okKey == t.proto # "shadowsocks" \/ KeyOk(t.cipher, t.key)
+      okKey == IF t.proto = "shadowsocks" THEN KeyOk(t.cipher, t.key) ELSE t.key = "password"    \* VMess: a UUID
       acc == okNames /\ okKey
       m == t.mode
       No == [accept |-> FALSE, tcp |-> "no", udp |-> "no", probes |-> {}]
@@ -165,7 +168,8 @@ KeyParses(c, k) ==      \* Base64::decode into [u8; N]: refuses what is not base
          [] OTHER -> FALSE
 Impl(t) ==
   LET parsed == /\ t.proto \in DocProtocols /\ t.cipher \in DocCiphers /\ (t.mode = "absent" \/ t.mode \in ModeNames)
-      keyOk  == t.proto # "shadowsocks" \/ KeyParses(t.cipher, t.key)
+      keyOk  == IF t.proto = "shadowsocks" THEN KeyParses(t.cipher, t.key)
+                ELSE (t.key = "password" \/ "VMessIdCheckedLate" \in Dev)
       Dead   == [alive |-> FALSE, tcp |-> FALSE, udp |-> FALSE, panic |-> FALSE, ok |-> {}, ran |-> {}]
       all    == {"ref_tcp", "ref_udp", "flow", "udp_flow"}
   IN IF ~parsed THEN Dead
@@ -178,6 +182,7 @@ Impl(t) ==
        THEN IF ~keyOk THEN Dead
             ELSE [alive |-> TRUE, tcp |-> EnableTcp(t.mode), udp |-> EnableUdp(t.mode) \/ (EnableQuic(t.mode) /\ t.link = "quic"),
                   panic |-> FALSE, ok |-> all \ (IF EnableTcp(t.mode) THEN {} ELSE {"ref_tcp"}), ran |-> all]
+     ELSE IF ~keyOk THEN Dead
      ELSE [alive |-> TRUE, tcp |-> TRUE, udp |-> t.link = "quic", panic |-> FALSE, ok |-> all, ran |-> all]
 
 ImplConforms == Conforms(cfg, Impl(cfg))
